@@ -79,14 +79,16 @@ Fixpoint decode_term (ig : integ) (w : wterm) (st : dstate) : res (dstate * term
   | WLit lex k => decode_literal lex k st
   | WDefault => Ok (st, TDefault)
   | WTriple s p o =>
-    match s, p, o with
-    | Some s', Some p', Some o' =>
-      do (st1, ts) <- decode_term ig s' st;
-      do (st2, tp) <- decode_term ig p' st1;
-      do (st3, to) <- decode_term ig o' st2;
-      match ig with Generic => Ok (st3, TTriple ts tp to) | Rdflib => Err NotImpl end
-    | _, _, _ => Err ValueErr      (* "repeated terms are not allowed in quoted triples" *)
-    end
+    (* slot by slot, as decode_quoted_triple does: an absent slot is noticed when its turn comes
+       ("repeated terms are not allowed in quoted triples") *)
+    match s with None => Err ValueErr | Some s' =>
+    do (st1, ts) <- decode_term ig s' st;
+    match p with None => Err ValueErr | Some p' =>
+    do (st2, tp) <- decode_term ig p' st1;
+    match o with None => Err ValueErr | Some o' =>
+    do (st3, to) <- decode_term ig o' st2;
+    match ig with Generic => Ok (st3, TTriple ts tp to) | Rdflib => Err NotImpl end
+    end end end
   end.
 
 (* one slot of decode_statement: present -> decode and remember; absent -> previous *)
@@ -154,7 +156,7 @@ Definition decode_row (ig : integ) (ak : adapter_kind) (po : poptions) (r : row)
     end
   | RGraphStart g =>
     match g with
-    | None => Err AttrErr                       (* getattr(graph_start, None) *)
+    | None => Err TypeErr                       (* getattr(graph_start, None): attribute name must be string *)
     | Some w =>
       do (st', tg) <- decode_term ig w st;
       match ak with AGraphs => Ok (set_graph st' (Some tg), []) | _ => Err NotImpl end
